@@ -91,7 +91,7 @@ Section Sessions.
      whenever this is Err e. *)
   Definition resume_checks (can_truncate : bool) (o : wopts) (roots : list bytes) (file : bytes)
     : res (option v2hdr * list bytes) :=
-    match read_header hdrdec default_maxh file with
+    match read_header hdrdec (w_maxh o) file with
     | Err e => Err e
     | Ok (_, ver, _, _) =>
       if negb (((ver =? 1) && w_v1 o) || ((ver =? 2) && negb (w_v1 o))) then Err EOther else
